@@ -249,7 +249,7 @@ func c12FindSchema(ss ast.Schemas, pkg string) *ast.Schema {
 }
 
 // c12LabRows: the rows of a built lab (cases with their source-valid documents).
-func c12LabRows(out *bufio.Writer, lab *Lab, cases []*LabCase, docs map[string][]JV, stats map[string]int) {
+func c12LabRows(out *bufio.Writer, lab *Lab, cases []*LabCase, docs map[string][]JV, faults map[string][]Fault, stats map[string]int) {
 	var reqs []LabReq
 	for _, c := range cases {
 		if !c.generated() || !c.GoOK {
@@ -303,6 +303,7 @@ func c12LabRows(out *bufio.Writer, lab *Lab, cases []*LabCase, docs map[string][
 			}
 		})
 		fmt.Fprintf(out, "jswf %s.js %s\trefs=%v present=%v\tok\n", c.ID, c.ID, refsOK, present)
+		c12FaultRows(out, c, irJS, string(jsText), faults[c.ID], stats)
 		if !c.GoOK {
 			fmt.Fprintf(out, "-\tskip %s gocompile %s\tok\n", c.ID, labOneLine(c.GoCompileErr))
 			continue
@@ -352,26 +353,279 @@ func c12LabRows(out *bufio.Writer, lab *Lab, cases []*LabCase, docs map[string][
 	}
 }
 
+// c12FaultRows: the emitted schema must reject what the source schema rejects. Every fault document is a
+// valid document of the source term with exactly one fault (constraint exceeded by one, value outside
+// the enumeration, missing required member, wrong type, undeclared member, …) and is rejected by the
+// schema language's own validator on the source text; required-ness, constraints and enum values being
+// carried over unchanged, the emitted JSON Schema has to reject it as well.
+func c12FaultRows(out *bufio.Writer, c *LabCase, irJS ast.Schemas, emittedText string, faults []Fault, stats map[string]int) {
+	if len(faults) == 0 {
+		return
+	}
+	src, srcErr := c.RefValidator("")
+	ev, evErr := newRefValidator("jsonschema", emittedText, c.Defs.Root)
+	if srcErr != nil || evErr != nil {
+		return
+	}
+	for _, f := range faults {
+		if src.validate(f.Doc) == nil {
+			stats["fault-accepted-by-source-validator"]++ // (CUE: unification supplies the member, …) not a fault of the source
+			continue
+		}
+		stats["faults"]++
+		impl, verdict := "invalid", "ok"
+		if ev.validate(f.Doc) == nil {
+			impl = "valid"
+			ptr := c12PathToPointer(f.Path)
+			verdict = fmt.Sprintf("FAIL emitted-accepts-source-invalid kind=%s format=%s src=%s %s path=%s case=%s", f.Kind, c.Format, c12SrcAt(c.Defs, ptr), c12IRDiagnosis(irJS, c.ID, c.Defs.Root, ptr, f), f.Path, c.ID)
+			stats["faults-accepted-by-emitted:"+f.Kind]++
+		}
+		fmt.Fprintf(out, "jsvalid %s.js %s %s %s\t%s\t%s\t%s\t%s\n", c.ID, c.ID, c.Defs.Root, f.Doc.sexp(), impl, verdict, f.Doc.json(), f.Doc.json())
+	}
+}
+
+// c12IRAt walks the IR (after the jsonschema chain) along a document pointer.
+func c12IRAt(ss ast.Schemas, pkg string, t ast.Type, segs []string, depth int) (ast.Type, bool) {
+	if depth > 40 {
+		return t, false
+	}
+	if t.Kind == ast.KindRef && t.Ref != nil {
+		o, ok := ss.LocateObject(t.Ref.ReferredPkg, t.Ref.ReferredType)
+		if !ok {
+			return t, false
+		}
+		return c12IRAt(ss, pkg, o.Type, segs, depth+1)
+	}
+	if len(segs) == 0 {
+		return t, true
+	}
+	switch {
+	case t.Kind == ast.KindStruct && t.Struct != nil:
+		for _, f := range t.Struct.Fields {
+			if f.Name == segs[0] {
+				return c12IRAt(ss, pkg, f.Type, segs[1:], depth+1)
+			}
+		}
+	case t.Kind == ast.KindArray && t.Array != nil:
+		return c12IRAt(ss, pkg, t.Array.ValueType, segs[1:], depth+1)
+	case t.Kind == ast.KindMap && t.Map != nil:
+		return c12IRAt(ss, pkg, t.Map.ValueType, segs[1:], depth+1)
+	case t.Kind == ast.KindDisjunction && t.Disjunction != nil:
+		for _, b := range t.Disjunction.Branches {
+			if r, ok := c12IRAt(ss, pkg, b, segs, depth+1); ok {
+				return r, true
+			}
+		}
+	}
+	return t, false
+}
+
+var c12KindRange = map[ast.ScalarKind][2]float64{
+	ast.KindInt8: {-128, 127}, ast.KindInt16: {-32768, 32767}, ast.KindInt32: {-2147483648, 2147483647},
+	ast.KindUint8: {0, 255}, ast.KindUint16: {0, 65535}, ast.KindUint32: {0, 4294967295}, ast.KindUint64: {0, 1.8446744073709552e19},
+}
+
+// c12IRDiagnosis: what the IR the jennies saw holds at the place of an accepted fault —
+// `ir=<kind> ir-constraint=<present|absent|n/a> ir-default=<yes|no> outside-kind-range=<yes|no>`:
+// the constraint the fault exceeds is present in the IR (the emitter lost it), absent (a front-end
+// or a pass lost it), or implied by the width / signedness of the scalar kind (never emitted).
+func c12IRDiagnosis(ss ast.Schemas, pkg, root, ptr string, f Fault) string {
+	var segs []string
+	if ptr != "" && ptr != "/" {
+		segs = strings.Split(strings.TrimPrefix(ptr, "/"), "/")
+	}
+	t, ok := c12IRAt(ss, pkg, ast.NewRef(pkg, root), segs, 0)
+	if !ok {
+		return "ir=? ir-constraint=n/a ir-default=no outside-kind-range=no"
+	}
+	kind, constraint, def, outside := string(t.Kind), "n/a", "no", "no"
+	if t.Default != nil {
+		def = "yes"
+	}
+	if t.Kind == ast.KindScalar && t.Scalar != nil {
+		kind = string(t.Scalar.ScalarKind)
+		var ops []ast.Op
+		switch f.Kind {
+		case "minLength-1":
+			ops = []ast.Op{ast.MinLengthOp}
+		case "maxLength+1":
+			ops = []ast.Op{ast.MaxLengthOp}
+		case "min-1":
+			ops = []ast.Op{ast.GreaterThanEqualOp, ast.GreaterThanOp}
+		case "max+1":
+			ops = []ast.Op{ast.LessThanEqualOp, ast.LessThanOp}
+		}
+		if len(ops) > 0 {
+			constraint = "absent"
+			for _, cs := range t.Scalar.Constraints {
+				for _, op := range ops {
+					if cs.Op == op {
+						constraint = "present"
+					}
+				}
+			}
+			if t.Scalar.Value != nil {
+				constraint = "present(constant)"
+			}
+		}
+		if rg, ok := c12KindRange[t.Scalar.ScalarKind]; ok {
+			if v, ok := c12Pointer(f.Doc, ptr); ok && v.K == 'n' {
+				if x, err := strconv.ParseFloat(v.S, 64); err == nil && (x < rg[0] || x > rg[1]) {
+					outside = "yes"
+				}
+			}
+		}
+	}
+	return fmt.Sprintf("ir=%s ir-constraint=%s ir-default=%s outside-kind-range=%s", kind, constraint, def, outside)
+}
+
+// c12PathToPointer turns a fault path ($.a.b[2]["odd key"]) into a JSON pointer (/a/b/2/odd key).
+func c12PathToPointer(path string) string {
+	var b strings.Builder
+	i := 0
+	if strings.HasPrefix(path, "$") {
+		i = 1
+	}
+	for i < len(path) {
+		switch path[i] {
+		case '.':
+			j := i + 1
+			for j < len(path) && path[j] != '.' && path[j] != '[' {
+				j++
+			}
+			b.WriteString("/" + path[i+1:j])
+			i = j
+		case '[':
+			j := strings.IndexByte(path[i:], ']')
+			if j < 0 {
+				return b.String()
+			}
+			seg := path[i+1 : i+j]
+			if strings.HasPrefix(seg, "\"") {
+				if u, err := strconv.Unquote(seg); err == nil {
+					seg = u
+				}
+			}
+			b.WriteString("/" + seg)
+			i += j + 1
+		default:
+			i++
+		}
+	}
+	return b.String()
+}
+
+// ---- boundary terms ------------------------------------------------------------------------------
+
+// c12BoundaryDefs draws a root struct whose members carry constraints, enumerations, constants and
+// defaults at boundary values: zero / empty / equal bounds, bounds around zero, one-sided bounds.
+// (The lab's general generator draws bounds mostly away from zero.)
+func c12BoundaryDefs(seed uint64, index int) *Defs {
+	r := newRng(seed*7477 + uint64(index)*131 + 17)
+	optI := func(vals ...int64) *int64 {
+		k := r.intn(len(vals) + 1)
+		if k == len(vals) {
+			return nil
+		}
+		return i64p(vals[k])
+	}
+	var pool []func() (*Src, *JV)
+	pool = append(pool,
+		func() (*Src, *JV) { // string lengths
+			switch r.intn(7) {
+			case 0:
+				return srcStringLen(i64p(0), nil), nil
+			case 1:
+				return srcStringLen(nil, i64p(0)), nil
+			case 2:
+				return srcStringLen(i64p(0), i64p(0)), nil
+			case 3:
+				return srcStringLen(i64p(1), i64p(1)), nil
+			case 4:
+				return srcStringLen(i64p(0), i64p(1)), nil
+			case 5:
+				return srcStringLen(nil, i64p(1)), nil
+			}
+			return srcStringLen(i64p(2), i64p(2)), nil
+		},
+		func() (*Src, *JV) { // integer bounds around zero
+			lo := optI(0, -1, 1)
+			hi := optI(0, -1, 1)
+			if lo != nil && hi != nil && *lo > *hi {
+				lo, hi = hi, lo
+			}
+			return srcInt(64, true, lo, hi), nil
+		},
+		func() (*Src, *JV) { // number bounds around zero (one-sided: two-sided is not expressible in CUE for cog)
+			v := []float64{0, -0.25, 0.25}[r.intn(3)]
+			if r.chance(50) {
+				return srcNum(64, f64p(v), nil), nil
+			}
+			return srcNum(64, nil, f64p(v)), nil
+		},
+		func() (*Src, *JV) { // enumerations holding zero
+			switch r.intn(3) {
+			case 0:
+				return srcEnumI(0, 1), nil
+			case 1:
+				return srcEnumI(-2, 0), nil
+			}
+			return srcEnumI(0, 5, 7), nil
+		},
+		func() (*Src, *JV) { // falsy defaults
+			switch r.intn(3) {
+			case 0:
+				return srcInt(64, true, nil, nil), jvp(jInt(0))
+			case 1:
+				return srcString(), jvp(jStr(""))
+			}
+			return srcBool(), jvp(jBool(false))
+		},
+		func() (*Src, *JV) { return srcArray(srcStringLen(nil, i64p(int64(r.intn(2))))), nil },
+		func() (*Src, *JV) { return srcDict(srcInt(64, true, i64p(0), i64p(0))), nil },
+	)
+	n := 4 + r.intn(4)
+	var fields []Field
+	for i := 0; i < n; i++ {
+		ty, def := pool[(index+i)%len(pool)]()
+		required := r.chance(60)
+		if def != nil {
+			required = false
+		}
+		fields = append(fields, fld(fmt.Sprintf("f%d", i), ty, required, false, def))
+	}
+	return &Defs{Root: "B", Items: []Def{{Name: "B", Ty: srcStruct(fields...)}}}
+}
+
+var c12FaultKinds = []string{"undeclaredKey", "missingRequired", "nullRequired", "wrongType", "min-1", "max+1", "minLength-1", "maxLength+1", "notInEnum"}
+
 // pinned lab cases: the recorded findings about encoded values, on real generated Go code
 var c12LabPinned = []struct {
 	id, defs string
 	docs     []string
+	faults   [][3]string // kind, path, source-invalid document
 }{
-	{"any", `(defs "R" ("R" (struct (field "v" (any) true false -))))`, []string{`{"v":"text"}`, `{"v":12}`}},
-	{"requirednullable", `(defs "R" ("R" (struct (field "n" (int 64 true - -) true true -))))`, []string{`{"n":null}`, `{"n":4}`}},
-	{"const", `(defs "R" ("R" (struct (field "c" (const (s "fixed")) true false -) (field "n" (int 64 true - -) false false -))))`, []string{`{"c":"fixed"}`, `{"c":"fixed","n":3}`}},
+	{"any", `(defs "R" ("R" (struct (field "v" (any) true false -))))`, []string{`{"v":"text"}`, `{"v":12}`}, nil},
+	{"requirednullable", `(defs "R" ("R" (struct (field "n" (int 64 true - -) true true -))))`, []string{`{"n":null}`, `{"n":4}`}, nil},
+	{"const", `(defs "R" ("R" (struct (field "c" (const (s "fixed")) true false -) (field "n" (int 64 true - -) false false -))))`, []string{`{"c":"fixed"}`, `{"c":"fixed","n":3}`}, nil},
 	{"nullunion", `(defs "R" ("R" (struct (field "x" (oneOfStructs "type" ("a" "A") ("b" "B")) false true -))) ("A" (struct (field "type" (const (s "a")) true false -))) ("B" (struct (field "type" (const (s "b")) true false -) (field "n" (int 64 true - -) true false -))))`,
-		[]string{`{"x":{"type":"b","n":1}}`, `{"x":null}`, `{}`}},
-	{"enumsign", `(defs "R" ("R" (struct (field "e" (ref "E") true false -))) ("E" (enumI -1)))`, []string{`{"e":-1}`}},
-	{"bytes", `(defs "R" ("R" (struct (field "b" (array (int 8 false - -)) true false -))))`, []string{`{"b":[1,2]}`, `{"b":[]}`}},
+		[]string{`{"x":{"type":"b","n":1}}`, `{"x":null}`, `{}`}, nil},
+	{"enumsign", `(defs "R" ("R" (struct (field "e" (ref "E") true false -))) ("E" (enumI -1)))`, []string{`{"e":-1}`}, nil},
+	{"bytes", `(defs "R" ("R" (struct (field "b" (array (int 8 false - -)) true false -))))`, []string{`{"b":[1,2]}`, `{"b":[]}`}, nil},
+	{"cuelendefault", `(defs "R" ("R" (struct (field "s" (string 3 - false) false false (s "abcd")) (field "t" (string - 2 false) false false (s "a")))))`,
+		[]string{`{"s":"abc"}`, `{}`}, [][3]string{{"minLength-1", "$.s", `{"s":"ab"}`}, {"maxLength+1", "$.t", `{"t":"abc"}`}}},
+	{"uintrange", `(defs "R" ("R" (struct (field "n" (int 64 true 0 1) true false -))))`,
+		[]string{`{"n":0}`, `{"n":1}`}, [][3]string{{"min-1", "$.n", `{"n":-1}`}, {"max+1", "$.n", `{"n":2}`}}},
+	{"lenzero", `(defs "R" ("R" (struct (field "e" (string - 0 false) true false -) (field "z" (string 0 - false) true false -))))`,
+		[]string{`{"e":"","z":""}`}, [][3]string{{"maxLength+1", "$.e", `{"e":"x","z":""}`}}},
 	{"plain", `(defs "R" ("R" (struct (field "s" (string 1 5 false) true false -) (field "k" (ref "E") false false -) (field "l" (array (int 64 true 0 9)) true false -))) ("E" (enumS "a" "b")))`,
-		[]string{`{"s":"ab","k":"b","l":[1,9]}`, `{"s":"abcde","l":[]}`}},
+		[]string{`{"s":"ab","k":"b","l":[1,9]}`, `{"s":"abcde","l":[]}`}, nil},
 }
 
 func init() {
 	register("c12-lab", func(args map[string]string, out *bufio.Writer) error {
 		args["python"] = "0"
-		b, err := buildLabBatch(args, "c12-"+args["seed"]+"-"+args["tier"], false)
+		b, err := buildLabBatch(args, "c12-"+args["seed"]+"-"+args["tier"], true)
 		if err != nil {
 			return err
 		}
@@ -389,8 +643,58 @@ func init() {
 			}
 		}
 		stats := map[string]int{}
-		c12LabRows(out, b.lab, b.cases, b.docs, stats)
+		c12LabRows(out, b.lab, b.cases, b.docs, b.fault, stats)
 		fmt.Fprintf(out, "-\tstats %v timings=%s constructs=%v docvariants=%v\tok\n", stats, fmtTimings(b.lab.Timings), b.hist, b.dhist)
+		return nil
+	})
+
+	// boundary terms × 3 formats: valid documents at the bounds (through real generated Go code) and
+	// single-fault documents one step beyond them
+	register("c12-bounds", func(args map[string]string, out *bufio.Writer) error {
+		opts := defaultLabOpts()
+		opts.NoPython = true
+		lab, err := NewLab(labWorkDir("c12bounds-"+args["seed"]), opts)
+		if err != nil {
+			return err
+		}
+		defer lab.Close()
+		seed := uint64(argInt(args, "seed", 1))
+		n := argInt(args, "n", 8)
+		ndocs := argInt(args, "docs", 12)
+		from := argInt(args, "from", 0)
+		docs := map[string][]JV{}
+		faults := map[string][]Fault{}
+		var cases []*LabCase
+		for i := from; i < from+n; i++ {
+			d := c12BoundaryDefs(seed, i)
+			for _, f := range labFormats {
+				if only, ok := args["format"]; ok && only != f {
+					continue
+				}
+				c := lab.AddCase(d, f)
+				cases = append(cases, c)
+				if c.Defs == nil {
+					continue
+				}
+				do := defaultDocOpts()
+				do.ForcedPct = 50 // boundary values and absent optional members half of the time
+				dg := newDocGen(c.Defs, newRng(seed*7919+uint64(i)*31+5), do)
+				for k := 0; k < ndocs; k++ {
+					docs[c.ID] = append(docs[c.ID], dg.validDoc())
+				}
+				for k := 0; k < 2*ndocs; k++ {
+					if fd, ok := dg.faultDoc(c12FaultKinds); ok {
+						faults[c.ID] = append(faults[c.ID], fd)
+					}
+				}
+			}
+		}
+		if err := lab.Build(); err != nil {
+			return err
+		}
+		stats := map[string]int{}
+		c12LabRows(out, lab, cases, docs, faults, stats)
+		fmt.Fprintf(out, "-\tstats %v\tok\n", stats)
 		return nil
 	})
 
@@ -403,6 +707,7 @@ func init() {
 		}
 		defer lab.Close()
 		docs := map[string][]JV{}
+		faults := map[string][]Fault{}
 		var cases []*LabCase
 		for _, p := range c12LabPinned {
 			if only, ok := args["id"]; ok && only != p.id {
@@ -418,6 +723,9 @@ func init() {
 				for _, t := range p.docs {
 					docs[c.ID] = append(docs[c.ID], mustJV(t))
 				}
+				for _, ft := range p.faults {
+					faults[c.ID] = append(faults[c.ID], Fault{Kind: ft[0], Path: ft[1], Doc: mustJV(ft[2])})
+				}
 				fmt.Fprintf(out, "-\tpinned %s %s %s\tok\n", p.id, c.ID, f)
 			}
 		}
@@ -425,7 +733,7 @@ func init() {
 			return err
 		}
 		stats := map[string]int{}
-		c12LabRows(out, lab, cases, docs, stats)
+		c12LabRows(out, lab, cases, docs, faults, stats)
 		fmt.Fprintf(out, "-\tstats %v\tok\n", stats)
 		return nil
 	})
